@@ -12,6 +12,7 @@ import (
 	"log"
 	"log/slog"
 	"math/rand"
+	"path/filepath"
 	"sort"
 	"strings"
 
@@ -148,12 +149,24 @@ func (c *vChart) files(prefix string, tpl string) []*loader.BufferedFile {
 		add("values.schema.json", c.Schema.bytes())
 	}
 	if c.CRDs {
-		add("crds/crd.yaml", []byte("apiVersion: apiextensions.k8s.io/v1\nkind: CustomResourceDefinition\nmetadata:\n  name: things."+c.Name+".example.com\n"))
+		// one CRD file per chart DIRECTORY, named after the directory's place in the description
+		// (not after aliases), so that a recorded CRD tells which chart directory it came from
+		id := crdID(prefix)
+		add("crds/"+id+".yaml", []byte("# crd-id: "+id+"\napiVersion: apiextensions.k8s.io/v1\nkind: CustomResourceDefinition\nmetadata:\n  name: things."+c.Name+".example.com\n"))
 	}
 	for _, s := range c.Charts {
 		out = append(out, s.files(prefix+"charts/"+s.Name+"/", tpl)...)
 	}
 	return out
+}
+
+// crdID: "root" for the top chart, "root_suba_gca" for charts/suba/charts/gca/.
+func crdID(prefix string) string {
+	p := strings.ReplaceAll(strings.TrimSuffix(prefix, "/"), "charts/", "")
+	if p == "" {
+		return "root"
+	}
+	return "root_" + strings.ReplaceAll(p, "/", "_")
 }
 
 func (c *vChart) child(name string) *vChart {
@@ -372,10 +385,11 @@ func coqChart(c *chart.Chart, desc *vChart) string {
 	if desc != nil && desc.Schema != nil {
 		schema = "(Some " + coqSchema(desc.Schema) + ")"
 	}
-	crds := false
+	crds := []string{}
 	for _, f := range c.Files {
-		if strings.HasPrefix(f.Name, "crds/") {
-			crds = true
+		ext := strings.ToLower(filepath.Ext(f.Name))
+		if strings.HasPrefix(f.Name, "crds/") && (ext == ".yaml" || ext == ".yml" || ext == ".json") {
+			crds = append(crds, f.Name)
 		}
 	}
 	vals := map[string]any{}
@@ -383,7 +397,7 @@ func coqChart(c *chart.Chart, desc *vChart) string {
 		vals = c.Values
 	}
 	return fmt.Sprintf("(Chart %s %s %s %s %s %s %s %s)", coqStr(c.Name()), coqStr(c.Metadata.Version), coqVMap(vals), schema,
-		coqList(deps), md, coqStrList(tpls), coqBool(crds))
+		coqList(deps), md, coqStrList(tpls), coqStrList(crds))
 }
 
 // compatTable evaluates the real IsCompatibleRange on every (constraint, version) pair of the tree.
